@@ -59,6 +59,15 @@ def one(name):
         res["check_quick_violations"] = viol[:4]
         res["check_quick_first_detail"] = [l.strip() for l in out.splitlines() if "kind=" in l][:3]
         res["detected_quick"] = rc == 1 and bool(viol)
+        # detection should not hang on one lucky seed: the other seeds asked for are recorded too
+        per_seed = {os.environ.get("VERIF_SEED", "1"): res["detected_quick"]}
+        for sd in [x for x in os.environ.get("RECONF_SEEDS", "").split(",") if x]:
+            if sd in per_seed:
+                continue
+            rc3, out3 = sh([VERIF + "/check", pid, "--tier", "quick"], cwd=VERIF,
+                           env=dict(env2, VERIF_SEED=sd), timeout=3000)
+            per_seed[sd] = rc3 == 1 and any(l.startswith("VIOLATION") for l in out3.splitlines())
+        res["detected_by_seed"] = per_seed
         # a change may break its property through a unit another property's check drives
         # (meta.json["also"]): record those outcomes too
         try:
@@ -95,7 +104,8 @@ def main():
             rows.append(r)
             print("%-9s base=%s clean=%s applies=%s suite=%r mutated=%s valid=%s detected=%s %s" % (
                 r["name"], r.get("base"), r.get("demo_on_clean_rc"), r.get("applies"), r.get("suite_with_patch", "")[:22],
-                r.get("demo_with_patch_rc"), r.get("valid_seed"),
+                r.get("demo_with_patch_rc"), str(r.get("valid_seed")) + " seeds=" + "".join(
+                    "+" if v else "-" for v in (r.get("detected_by_seed") or {}).values()),
             r.get("detected_quick") or r.get("detected_by_other"),
                 (r.get("check_quick_violations") or [""])[0][:90]), flush=True)
     mpath = os.path.join(VERIF, "seeded", "MATRIX.json")
